@@ -120,7 +120,8 @@ def run(ctx: Any, prog: Program) -> None:
         raise AnalysisError('VTF.read/save: the minor-version locals or the object under construction were not found')
     robj = robjs[0]
     for minor in (2, 3, 4, 5):
-        ri = Extractor(vtf, fold, Config({vminor_r: minor}, None), 'VTF', {}).extract(rd)
+        # the version as the object under construction holds it (`vtf.version >= (7, 3)`): the pair read from the header
+        ri = Extractor(vtf, fold, Config({vminor_r: minor, f'{robj}.version': (7, minor)}, None), 'VTF', {}).extract(rd)
         wi = Extractor(vtf, fold, Config({vminor_w: minor}, None), 'VTF', {}).extract(sv)
         rs, ws = norm_repeat(simplify(flatten(ri))), norm_repeat(simplify(flatten(wi)))
         if minor < 3:
@@ -1148,6 +1149,7 @@ def accepted_region(test: ast.AST, coords: Tuple[str, str] = ('x', 'y')) -> Dict
 
 
 MUTANTS: List[Dict[str, Any]] = [
+    {'id': 'depth_field_gate_drops_7_2', 'file': 'vtf.py', 'find': "        if version_minor >= 2:\n            [vtf.depth] = struct.unpack('H', file.read(2))", 'replace': "        if vtf.version > (7, 2):\n            [vtf.depth] = struct.unpack('H', file.read(2))", 'expect': 'C15.F1', 'note': 'round 12: gate on the version pair of the object under construction'},
     {'id': 'resource_gate_from_own_version', 'file': 'vtf.py', 'find': "        if version_minor >= 3:\n            deferred.set_data('low_res', file.tell())", 'replace': "        if self.version >= (7, 3):\n            deferred.set_data('low_res', file.tell())", 'expect': 'C15.F1', 'note': 'round 11'},
     {'id': 'sequence_number_bounded_by_count', 'file': 'vtf.py', 'find': "            if not (0 <= seq_num < SheetSequence.MAX_COUNT):", 'replace': "            if seq_num >= sequence_count:", 'expect': 'C15.F6', 'note': 'round 11'},
     {'id': 'sequence_total_shares_name_with_frame_duration', 'file': 'vtf.py', 'find': "                frame_count,\n                total_time,\n            ) = struct.unpack_from('<Ixxx?If', data, offset)", 'replace': "                frame_count,\n                duration,\n            ) = struct.unpack_from('<Ixxx?If', data, offset)", 'extra': [{'file': 'vtf.py', 'find': "            sequences[seq_num] = SheetSequence(frames, clamp, total_time)", 'replace': "            sequences[seq_num] = SheetSequence(frames=frames, clamp=clamp, duration=duration)"}], 'expect': 'C15.F6'},
